@@ -13,6 +13,7 @@ the implementation.
 import collections
 import glob
 import itertools
+import math
 import os
 import random
 import struct
@@ -131,7 +132,56 @@ def predicate(req, d):
                 return False, "(c) bracket [%r, %r] supplied with f=%r, %r of different sign, but call %d evaluates the function at %r" % (lo, hi, fvals[1], fvals[2], j, args[j])
         if d["x"] != bits(req["x0"]) and not (lo <= x <= hi):
             return False, "(c) bracket [%r, %r] supplied but the returned estimate is %r" % (lo, hi, x)
+    # (c) again for a genuine function (calls 1 and 2 not scripted): the signs of f at the supplied bounds are
+    # recomputed here, independently of where the implementation chose to evaluate the function
+    if im > 0 and finite(lo) and finite(hi) and lo < hi and len(req["script"]) <= 1 and 1 <= req["fid"] <= 12 and n > 3:
+        flo, fhi = pyfn(req["fid"], lo), pyfn(req["fid"], hi)
+        if finite(flo) and finite(fhi) and sgn(flo) != sgn(fhi):
+            for j in range(3, n):
+                if not (lo <= args[j] <= hi):
+                    return False, "(c) bracket [%r, %r] supplied, f(%r)=%r and f(%r)=%r have different signs, but call %d evaluates the function at %r" % (lo, hi, lo, flo, hi, fhi, j, args[j])
+            if d["x"] != bits(req["x0"]) and not (lo <= x <= hi):
+                return False, "(c) bracket [%r, %r] supplied (f changes sign) but the returned estimate is %r" % (lo, hi, x)
     return True, "ok"
+
+
+def pyfn(fid, x):
+    """value of the harness / driver function number `fid` at x (python floats are IEEE doubles; only the sign and
+    the finiteness of the result are used)"""
+    def div(a, b):
+        if b == 0.0:
+            if a == 0.0 or a != a:
+                return NAN
+            return math.copysign(INF, a) * math.copysign(1.0, b)
+        return a / b
+    try:
+        if fid == 1:
+            return x * x - 13.0
+        if fid == 2:
+            return x * x * x - 2.0 * x - 5.0
+        if fid == 3:
+            return div(1.0, x) - 2.0
+        if fid == 4:
+            return x * x
+        if fid == 5:
+            return (x - 1.0) * (x - 1.0) * (x - 1.0)
+        if fid == 6:
+            return 1.0
+        if fid == 7:
+            return div(x, 1.0 + x * x)
+        if fid == 8:
+            return x - div(2.0, x)
+        if fid == 9:
+            return NAN if x < 0.0 else x * x - 2.0
+        if fid == 10:
+            return INF if 3.0 < x else x - 2.0
+        if fid == 11:
+            return x * x * x
+        if fid == 12:
+            return -1.0 if x < 1.0 else 1.0
+    except OverflowError:
+        return INF
+    return NAN
 
 
 def req_line(r, harness=False):
